@@ -56,6 +56,13 @@ def classes : List Cls := [
   c "SNAP" .be 8 [],
   c "VXLAN" .be 8 [],
   c "STP" .be 35 [],
+  c "PPPoE" .be 6 [],
+  c "SLL" .be 16 [],
+  c "Dot3" .be 14 [(96, 16)],
+  c "IPSecAH" .be 12 [(8, 8)],
+  c "IPSecESP" .be 8 [],
+  c "DNS" .be 12 [],
+  c "BootP" .be 236 [],
   c "Dot11" .le 10 [],
   c "Dot11Data" .le 24 [],
   c "Dot11Beacon" .le 24 [],
@@ -165,6 +172,58 @@ def rows : List Row := [
   r "STP" "max_age" .be 232 16 .num .rw 256,
   r "STP" "hello_time" .be 248 16 .num .rw 256,
   r "STP" "fwd_delay" .be 264 16 .num .rw 256,
+  -- RFC 2516 §4
+  r "PPPoE" "version" .be 0 4 .num .rw,
+  r "PPPoE" "type" .be 4 4 .num .rw,
+  r "PPPoE" "code" .be 8 8 .num .rw,
+  r "PPPoE" "session_id" .be 16 16 .num .rw,
+  r "PPPoE" "payload_length" .be 32 16 .num .rw,
+  -- Linux cooked capture v1 (LINKTYPE_LINUX_SLL)
+  r "SLL" "packet_type" .be 0 16 .num .rw,
+  r "SLL" "lladdr_type" .be 16 16 .num .rw,
+  r "SLL" "lladdr_len" .be 32 16 .num .rw,
+  r "SLL" "address" .be 48 64 .bytes .rw,
+  r "SLL" "protocol" .be 112 16 .num .rw,
+  -- IEEE 802.3 MAC frame with length field
+  r "Dot3" "dst_addr" .be 0 48 .bytes .rw,
+  r "Dot3" "src_addr" .be 48 48 .bytes .rw,
+  r "Dot3" "length" .be 96 16 .num .rw,
+  -- RFC 4302 §2 (next header, payload len, 16 reserved bits, SPI, sequence number)
+  r "IPSecAH" "next_header" .be 0 8 .num .rw,
+  r "IPSecAH" "length" .be 8 8 .num .rw,
+  r "IPSecAH" "spi" .be 32 32 .num .rw,
+  r "IPSecAH" "seq_number" .be 64 32 .num .rw,
+  -- RFC 4303 §2
+  r "IPSecESP" "spi" .be 0 32 .num .rw,
+  r "IPSecESP" "seq_number" .be 32 32 .num .rw,
+  -- RFC 1035 §4.1.1 + RFC 2535 (AD, CD)
+  r "DNS" "id" .be 0 16 .num .rw,
+  r "DNS" "type" .be 16 1 .num .rw,
+  r "DNS" "opcode" .be 17 4 .num .rw,
+  r "DNS" "authoritative_answer" .be 21 1 .num .rw,
+  r "DNS" "truncated" .be 22 1 .num .rw,
+  r "DNS" "recursion_desired" .be 23 1 .num .rw,
+  r "DNS" "recursion_available" .be 24 1 .num .rw,
+  r "DNS" "z" .be 25 1 .num .rw,
+  r "DNS" "authenticated_data" .be 26 1 .num .rw,
+  r "DNS" "checking_disabled" .be 27 1 .num .rw,
+  r "DNS" "rcode" .be 28 4 .num .rw,
+  r "DNS" "questions_count" .be 32 16 .num .ro,
+  r "DNS" "answers_count" .be 48 16 .num .ro,
+  r "DNS" "authority_count" .be 64 16 .num .ro,
+  r "DNS" "additional_count" .be 80 16 .num .ro,
+  -- RFC 951 §3
+  r "BootP" "opcode" .be 0 8 .num .rw,
+  r "BootP" "htype" .be 8 8 .num .rw,
+  r "BootP" "hlen" .be 16 8 .num .rw,
+  r "BootP" "hops" .be 24 8 .num .rw,
+  r "BootP" "xid" .be 32 32 .num .rw,
+  r "BootP" "secs" .be 64 16 .num .rw,
+  r "BootP" "padding" .be 80 16 .num .rw,
+  r "BootP" "ciaddr" .be 96 32 .bytes .rw,
+  r "BootP" "yiaddr" .be 128 32 .bytes .rw,
+  r "BootP" "siaddr" .be 160 32 .bytes .rw,
+  r "BootP" "giaddr" .be 192 32 .bytes .rw,
   -- IEEE 802.11-2016 §9.2.4.1 frame control (B0..B15), duration/ID, address 1
   r "Dot11" "protocol" .le 0 2 .num .rw,
   r "Dot11" "type" .le 2 2 .num .rw,
